@@ -251,7 +251,8 @@ def _example(schema):
             out.append(x)
 
         t()
-        return ["example", _snap(out[0]) if out else None]
+        # (the drawn values are C13's business; here only whether synthesis went through -- and what it did to the schema)
+        return ["example", bool(out)]
 
 
 def _hashes(schema):
@@ -351,6 +352,7 @@ def _ops_for(seed):
             "to_script": lambda s, f: _io(s, "script"),
             "statistics": lambda s, f: _stats(s),
             "strategy": lambda s, f: _strategy(s),
+            "example": lambda s, f: _example(s),
             "pickle": lambda s, f: _pickle(s),
             "dtypes": lambda s, f: repr(getattr(s, "dtypes", None)) if not is_series else repr(s.dtype),
             "get_metadata": lambda s, f: repr(s.get_metadata()) if hasattr(s, "get_metadata") else "n/a",
@@ -378,9 +380,6 @@ def _ops_for(seed):
                 "t_reset_index_level_empty": _transform("reset_index", level=[]),
             })
     return {k: _guard(v) for k, v in ops.items()}
-
-
-HEAVY_OPS = ("example",)
 
 
 def _state(seed, schema, frames):
